@@ -547,12 +547,13 @@ std::locale const &utf8_locale()
 char const *const utf8_apis[] = {"locale", "env", "fcppt_locale", "fcppt"};
 
 // w: wide string of scalar values; gb: optional byte string fed to the widening direction
-void drive_utf8(std::string const &api, std::vector<long long> const &w, bool const has_gb, std::vector<int> const &gb)
+// g: label used only to group records for judging ("single", "string", "cut" = the byte input was cut short)
+void drive_utf8(std::string const &api, std::vector<long long> const &w, bool const has_gb, std::vector<int> const &gb, char const *g)
 {
   std::wstring ws;
   for (long long c : w) ws += static_cast<wchar_t>(c);
   vj::J pre;
-  pre.kv("f", "utf8").kv("api", api).kv("w", w);
+  pre.kv("f", "utf8").kv("g", g).kv("api", api).kv("w", w);
   if (has_gb) pre.kv("gb", gb);
   auto const narrow = [&](std::wstring const &s) -> fcppt::optional::object<std::string> {
     if (api == "locale") return fcppt::narrow_locale(s, utf8_locale());
@@ -693,12 +694,13 @@ std::vector<ull> float_patterns(unsigned const bits, vj::Rng &r, std::size_t con
 }
 
 template <typename T>
-void io_family(std::vector<ull> const &patterns, bool const with_swap, vj::Rng &r)
+void io_family(std::vector<ull> const &patterns, std::size_t const swap_every, vj::Rng &r)
 {
+  std::size_t k = 0;
   for (ull p : patterns)
   {
     drive_io<T>(p);
-    if (with_swap) drive_swap<T>(p);
+    if (swap_every != 0 && (k++ % swap_every) == 0) drive_swap<T>(p);
   }
   // io::read on byte strings that did not come from io::write, all lengths 0..sizeof+1
   for (std::size_t len = 0; len <= sizeof(T) + 1; ++len)
@@ -759,24 +761,24 @@ void record(std::uint64_t const seed, bool const thorough)
   vj::Rng r(seed);
   std::size_t const nrand = thorough ? 40000 : 4096;
   // ---- binary
-  io_family<signed char>(all_values(8), true, r);
-  io_family<unsigned char>(all_values(8), true, r);
-  io_family<char>(all_values(8), true, r);
-  io_family<bool>({0ULL, 1ULL}, true, r);
-  io_family<short>(all_values(16), true, r);
-  io_family<unsigned short>(all_values(16), true, r);
-  io_family<int>(lattice(32, r, nrand), true, r);
-  io_family<unsigned>(lattice(32, r, nrand), true, r);
-  io_family<wchar_t>(lattice(32, r, nrand / 8), true, r);
-  io_family<long>(lattice(64, r, nrand), true, r);
-  io_family<unsigned long>(lattice(64, r, nrand), true, r);
-  io_family<long long>(lattice(64, r, nrand / 8), true, r);
-  io_family<unsigned long long>(lattice(64, r, nrand / 8), true, r);
-  io_family<float>(float_patterns(32, r, nrand), false, r);
-  io_family<double>(float_patterns(64, r, nrand), false, r);
+  io_family<signed char>(all_values(8), 1, r);
+  io_family<unsigned char>(all_values(8), 1, r);
+  io_family<char>(all_values(8), 1, r);
+  io_family<bool>({0ULL, 1ULL}, 1, r);
+  io_family<short>(all_values(16), thorough ? 1 : 3, r); // same bit patterns as unsigned short
+  io_family<unsigned short>(all_values(16), 1, r);
+  io_family<int>(lattice(32, r, nrand), 1, r);
+  io_family<unsigned>(lattice(32, r, nrand), 1, r);
+  io_family<wchar_t>(lattice(32, r, nrand / 8), 1, r);
+  io_family<long>(lattice(64, r, nrand), 1, r);
+  io_family<unsigned long>(lattice(64, r, nrand), 1, r);
+  io_family<long long>(lattice(64, r, nrand / 8), 1, r);
+  io_family<unsigned long long>(lattice(64, r, nrand / 8), 1, r);
+  io_family<float>(float_patterns(32, r, nrand), 0, r);
+  io_family<double>(float_patterns(64, r, nrand), 0, r);
   // ---- decimal text
-  dec_family<short>(all_values(16), false, thorough ? 1 : 5);
-  dec_family<unsigned short>(all_values(16), false, thorough ? 1 : 5);
+  dec_family<short>(all_values(16), false, thorough ? 1 : 11);
+  dec_family<unsigned short>(all_values(16), false, thorough ? 1 : 11);
   dec_family<int>(lattice(32, r, nrand / 2), true, 1);
   dec_family<unsigned>(lattice(32, r, nrand / 2), true, 1);
   dec_family<long>(lattice(64, r, nrand / 2), true, 1);
@@ -901,19 +903,19 @@ void record(std::uint64_t const seed, bool const thorough)
       std::vector<long long> const w{cp};
       std::vector<int> gb;
       gen_bytes(gb, cp);
-      drive_utf8("locale", w, true, gb);
+      drive_utf8("locale", w, true, gb, "single");
       ++k;
       if (nb || k % 97 == 0)
       {
-        for (int a = 1; a < 4; ++a) drive_utf8(utf8_apis[a], w, true, gb);
+        for (int a = 1; a < 4; ++a) drive_utf8(utf8_apis[a], w, true, gb, "single");
         // the input ends inside the character (with and without characters in front)
         for (std::size_t cut = 1; cut < gb.size(); ++cut)
         {
           std::vector<int> const part(gb.begin(), gb.begin() + static_cast<std::ptrdiff_t>(cut));
-          drive_utf8(utf8_apis[(cut + static_cast<std::size_t>(k)) % 4], w, true, part);
+          drive_utf8(utf8_apis[(cut + static_cast<std::size_t>(k)) % 4], w, true, part, "cut");
           std::vector<int> pre = gen_bytes(std::vector<long long>{0x61, 0xE9});
           pre.insert(pre.end(), part.begin(), part.end());
-          drive_utf8("locale", w, true, pre);
+          drive_utf8("locale", w, true, pre, "cut");
         }
       }
     }
@@ -947,7 +949,7 @@ void record(std::uint64_t const seed, bool const thorough)
             }
             w.push_back(scalar_of_class(r, cls));
           }
-          drive_utf8(utf8_apis[(len + pat + rep) % 4], w, true, gen_bytes(w));
+          drive_utf8(utf8_apis[(len + pat + rep) % 4], w, true, gen_bytes(w), "string");
         }
     std::size_t const nstr = thorough ? 100000 : 2000;
     for (std::size_t j = 0; j < nstr; ++j)
@@ -959,13 +961,18 @@ void record(std::uint64_t const seed, bool const thorough)
         w.push_back(scalar_of_class(r, (bias > 0 && r.below(3) != 0) ? bias : 1 + static_cast<int>(r.below(4))));
       std::vector<int> gb = gen_bytes(w);
       // now and then the byte input ends inside its last character
+      bool cut = false;
       if (j % 16 == 3)
       {
         std::vector<int> last;
         gen_bytes(last, w.back());
-        if (last.size() > 1) gb.resize(gb.size() - 1U - r.below(last.size() - 1U));
+        if (last.size() > 1)
+        {
+          gb.resize(gb.size() - 1U - r.below(last.size() - 1U));
+          cut = true;
+        }
       }
-      drive_utf8(utf8_apis[j % 4], w, true, gb);
+      drive_utf8(utf8_apis[j % 4], w, true, gb, cut ? "cut" : "string");
     }
   }
 }
@@ -1065,7 +1072,7 @@ bool replay_one(vj::V const &e)
   }
   if (f == "utf8")
   {
-    drive_utf8(e.str("api"), e.nums("w"), e.has("gb"), e.has("gb") ? ints_of(e.nums("gb")) : std::vector<int>{});
+    drive_utf8(e.str("api"), e.nums("w"), e.has("gb"), e.has("gb") ? ints_of(e.nums("gb")) : std::vector<int>{}, "replay");
     return true;
   }
   return false;
